@@ -78,6 +78,7 @@ def rules(repo, tier):
         ('SO3_Log', ['SO3'], 'so3'), ('SE3_Log', ['SE3'], 'se3'), ('RxSO3_Log', ['RxSO3'], 'rxso3'), ('Sim3_Log', ['Sim3'], 'sim3')], floor=4))
     out.append(rule_pair(repo))
     out.append(rule_range(repo))
+    out.append(rule_dtype(repo, 'C02.DTYPE', LOG_TARGETS + [(OP, 'SE3_Log.forward'), (OP, 'Sim3_Log.forward'), (OP, 'RxSO3_Log.forward')], floor=6))
     out.append(rule_dispatch(repo, 'C02.DT', 'Log', GROUPS, lambda G: G + '_Log', lambda G: ALG[G] + '_type', floor=6, wrapper='Log'))
     return out
 
